@@ -2,12 +2,13 @@
   Transition systems with kernel-checked inductive-invariant certificates (client side; core only).
 
   A system is an initial state and a finite-branching successor function. A *certificate* is a set `R`
-  of state codes (`Nat`), given as a binary search tree. The untrusted driver computes the reachable
-  set by BFS and prints it; the kernel re-checks, by evaluation (`decide +kernel`), that
+  of state codes (`Nat`), given as a list of binary search trees (`Forest`). The untrusted driver
+  computes the reachable set by BFS and prints it; the kernel re-checks, by evaluation
+  (`decide +kernel`, one obligation per part), that
     * the code of the initial state is in `R`,
     * for every code `c` in `R`, every successor of `decode c` has its code in `R`,
-    * every state `t` met this way satisfies `decode (code t) = t` (so no property of the codec has to
-      be proved by hand: the round trip is checked on exactly the states that matter).
+    * every state `t` met this way is within the range of the codec (`wf t`), where
+      `decode (code t) = t` is a proved theorem.
   `cert_sound` then gives, by induction over `Reachable` (any number of steps, any interleaving of
   the modelled steps): every reachable state is `decode c` for some `c ∈ R`; and `safe_of_cert`: a
   boolean predicate that is false on every `decode c`, `c ∈ R`, is false on every reachable state.
@@ -63,6 +64,26 @@ theorem Tree.all_mem {p : Nat → Bool} : ∀ {t : Tree} {x : Nat},
         have : x = k := by omega
         rw [this]; exact ha.2.1
 
+/-- a certificate: the sorted codes cut into consecutive parts, each a search tree, with an exclusive
+    upper bound per part (so that the closure check can be split into one obligation per part and
+    the parts checked by the kernel in parallel, in separate modules). -/
+abbrev Forest := List (Nat × Tree)
+
+def Forest.mem : Forest → Nat → Bool
+  | [], _ => false
+  | (b, t) :: rest, x => bif Nat.blt x b then t.mem x else Forest.mem rest x
+
+theorem Forest.all_mem {p : Nat → Bool} : ∀ {F : Forest} {x : Nat},
+    (∀ q ∈ F, q.2.all p = true) → F.mem x = true → p x = true
+  | [], _, _, hm => by simp [Forest.mem] at hm
+  | (b, t) :: rest, x, ha, hm => by
+    unfold Forest.mem at hm
+    cases h1 : Nat.blt x b with
+    | true => rw [h1, cond_true] at hm; exact Tree.all_mem (ha (b, t) (List.mem_cons_self ..)) hm
+    | false =>
+      rw [h1, cond_false] at hm
+      exact Forest.all_mem (fun q hq => ha q (List.mem_cons_of_mem _ hq)) hm
+
 /-- states packed into `Nat` codes. `wf` is a cheap boolean range check under which the round trip
     `decode (code s) = s` has been PROVED; the certificate check evaluates `wf` on every state it
     meets (so the round trip is available exactly where the induction needs it, and the kernel never
@@ -76,37 +97,44 @@ structure Codec (σ : Type) where
 variable {σ : Type}
 
 /-- the code of `t` is in the certificate and `t` is within the range of the codec. -/
-def okCode (C : Codec σ) (R : Tree) (t : σ) : Bool :=
-  R.mem (C.code t) && C.wf t
+def okCode (C : Codec σ) (F : Forest) (t : σ) : Bool :=
+  F.mem (C.code t) && C.wf t
 
-theorem okCode_spec {C : Codec σ} {R : Tree} {t : σ} (h : okCode C R t = true) :
-    R.mem (C.code t) = true ∧ C.decode (C.code t) = t := by
+theorem okCode_spec {C : Codec σ} {F : Forest} {t : σ} (h : okCode C F t = true) :
+    F.mem (C.code t) = true ∧ C.decode (C.code t) = t := by
   simp only [okCode, Bool.and_eq_true] at h
   exact ⟨h.1, C.roundtrip _ h.2⟩
 
+/-- every successor of every state of the part `P` is in the certificate `F`. -/
+def partClosed (S : Sys σ) (C : Codec σ) (F : Forest) (P : Tree) : Bool :=
+  P.all fun c => (S.step (C.decode c)).all (okCode C F)
+
+/-- `bad` is false on every state of the part. -/
+def partSafe (C : Codec σ) (bad : σ → Bool) (P : Tree) : Bool :=
+  P.all fun c => !bad (C.decode c)
+
 /-- the certificate contains the initial state and is closed under the successor function. -/
-def closedUnder (S : Sys σ) (C : Codec σ) (R : Tree) : Bool :=
-  okCode C R S.init && R.all fun c => (S.step (C.decode c)).all (okCode C R)
+def closedUnder (S : Sys σ) (C : Codec σ) (F : Forest) : Prop :=
+  okCode C F S.init = true ∧ ∀ q ∈ F, partClosed S C F q.2 = true
 
 /-- `bad` is false on every state of the certificate. -/
-def safeOn (C : Codec σ) (bad : σ → Bool) (R : Tree) : Bool :=
-  R.all fun c => !bad (C.decode c)
+def safeOn (C : Codec σ) (bad : σ → Bool) (F : Forest) : Prop :=
+  ∀ q ∈ F, partSafe C bad q.2 = true
 
-theorem cert_sound {S : Sys σ} {C : Codec σ} {R : Tree} (h : closedUnder S C R = true)
-    {s : σ} (hs : Reachable S s) : R.mem (C.code s) = true ∧ C.decode (C.code s) = s := by
-  simp only [closedUnder, Bool.and_eq_true] at h
+theorem cert_sound {S : Sys σ} {C : Codec σ} {F : Forest} (h : closedUnder S C F)
+    {s : σ} (hs : Reachable S s) : F.mem (C.code s) = true ∧ C.decode (C.code s) = s := by
   induction hs with
   | init => exact okCode_spec h.1
   | step _ ht ih =>
-    have h2 := Tree.all_mem h.2 ih.1
+    have h2 := Forest.all_mem h.2 ih.1
     rw [ih.2, List.all_eq_true] at h2
     exact okCode_spec (h2 _ ht)
 
-theorem safe_of_cert {S : Sys σ} {C : Codec σ} {R : Tree} {bad : σ → Bool}
-    (h : closedUnder S C R = true) (hb : safeOn C bad R = true)
+theorem safe_of_cert {S : Sys σ} {C : Codec σ} {F : Forest} {bad : σ → Bool}
+    (h : closedUnder S C F) (hb : safeOn C bad F)
     {s : σ} (hs : Reachable S s) : bad s = false := by
   have ⟨hm, hd⟩ := cert_sound h hs
-  have := Tree.all_mem hb hm
+  have := Forest.all_mem hb hm
   rw [hd] at this
   simpa using this
 
